@@ -232,7 +232,7 @@ def instrument_text(text, fname):
     for (name, lp, rp, lb, rb) in funcs:
         inserts.append((rp + 1, 0, " VC_%s " % name))
         points.append("VC_%s" % name)
-        inserts.append((lb + 1, 0, " VE_%s " % name))
+        inserts.append((lb + 1, 0, " VERIF_GHOST(VE_%s) " % name))
         points.append("VE_%s" % name)
         body = m[lb:rb + 1]
         # paren depth per position inside the body
@@ -285,10 +285,10 @@ def instrument_text(text, fname):
                         simple = False
                     k += 1
                 if simple and k < len(body):
-                    inserts.append((lb + kw, 1, "VP_%s " % tag))
+                    inserts.append((lb + kw, 1, "VERIF_GHOST(VP_%s) " % tag))
                     inserts.append((lb + q + 1, 0, " VL_%s " % tag))
-                    inserts.append((lb + b, 0, "{ VT_%s " % tag))
-                    inserts.append((lb + k + 1, 0, " } VX_%s " % tag))
+                    inserts.append((lb + b, 0, "{ VERIF_GHOST(VT_%s) " % tag))
+                    inserts.append((lb + k + 1, 0, " } VERIF_GHOST(VX_%s) " % tag))
                     points += ["VP_" + tag, "VL_" + tag, "VT_" + tag, "VX_" + tag]
                     lrec[2] = text.count("\n", 0, lb + k) + 1
                     continue
@@ -297,10 +297,10 @@ def instrument_text(text, fname):
                 continue
             e = match_forward(body, b, "{", "}")
             lrec[2] = text.count("\n", 0, lb + e) + 1
-            inserts.append((lb + kw, 1, "VP_%s " % tag))
+            inserts.append((lb + kw, 1, "VERIF_GHOST(VP_%s) " % tag))
             inserts.append((lb + q + 1, 0, " VL_%s " % tag))
-            inserts.append((lb + b + 1, 0, " VT_%s " % tag))
-            inserts.append((lb + e + 1, 0, " VX_%s " % tag))
+            inserts.append((lb + b + 1, 0, " VERIF_GHOST(VT_%s) " % tag))
+            inserts.append((lb + e + 1, 0, " VERIF_GHOST(VX_%s) " % tag))
             points += ["VP_" + tag, "VL_" + tag, "VT_" + tag, "VX_" + tag]
         # C08 observation points: branch conditions and non-constant subscripts
         for mo in re.finditer(r"\b(if|while|for)\b", body):
@@ -368,7 +368,7 @@ def instrument_text(text, fname):
             start = skip_ws(body, start)
             counts[callee] = counts.get(callee, 0) + 1
             tok = "VB_%s_%s_%d" % (name, callee, counts[callee])
-            inserts.append((lb + start, 2, tok + " "))
+            inserts.append((lb + start, 2, "VERIF_GHOST(" + tok + ") "))
             points.append(tok)
     # apply insertions back to front; for equal positions keep stable order
     inserts.sort(key=lambda t: (t[0], t[1]))
@@ -404,6 +404,13 @@ def main():
     with open(os.path.join(outdir, "verif_defaults.h"), "w") as fh:
         fh.write("/* generated: every instrumentation point defaults to empty */\n")
         fh.write("#ifndef VLK_B\n#define VLK_B(e) (e)\n#endif\n#ifndef VLK_I\n#define VLK_I(e) (e)\n#endif\n")
+        # ghost statements run with CBMC's automatic safety checks switched off: an index expression of the GHOST code that no
+        # longer fits a restructured loop must show up as a failed invariant (scaffolding), never as a memory-safety finding
+        # against the repository's code.  (Explicit __CPROVER_assert in ghost statements and dfcc's frame checks are unaffected.)
+        fh.write("#ifndef VERIF_GHOST\n#ifdef VERIF_CBMC\n#define VERIF_GHOST(x) _Pragma(\"CPROVER check push\") "
+                 + " ".join("_Pragma(\"CPROVER check disable \\\"%s\\\"\")" % c for c in
+                            ("bounds", "pointer", "pointer-overflow", "signed-overflow", "undefined-shift", "div-by-zero", "pointer-primitive"))
+                 + " x _Pragma(\"CPROVER check pop\")\n#else\n#define VERIF_GHOST(x) x\n#endif\n#endif\n")
         for f, pts in sorted(allpoints.items()):
             for p in pts:
                 if p in seen:
